@@ -39,6 +39,7 @@ func crashScenarios(tier string) []*simScenario {
 		scenMember(memberSeedByName("2v+nv"), dev, 1, 0, true, nil, 1),
 		scenSnap(snapSeeds[snapSeedIndex("full")], dev, true, true, 1),
 		scenSnap(snapSeeds[snapSeedIndex("lagging")], dev, true, true, 1),
+		scenSnap(snapSeeds[snapSeedIndex("divergent-long")], dev, true, true, 0),
 	}
 	var out []*simScenario
 	// a voter between two candidates dies at every storage point of its grant (candidate id 2, and 3 = the term)
